@@ -1138,7 +1138,9 @@ def _scalar_only_kernels(tree):
                 sig = d.args[0]
         if not (isinstance(sig, ast.Call) and len(sig.args) == len(fn.args.args)):
             continue
-        if all(isinstance(a, (ast.Name, ast.Attribute)) for a in sig.args) and isinstance(sig.func, (ast.Name, ast.Attribute)):
+        scal = {"uint8", "uint16", "uint32", "uint64", "int8", "int16", "int32", "int64", "float32", "float64", "boolean", "bool_", "intp", "uintp"}
+        tname = lambda a: a.id if isinstance(a, ast.Name) else a.attr if isinstance(a, ast.Attribute) else None
+        if all(tname(a) in scal for a in sig.args) and isinstance(sig.func, (ast.Name, ast.Attribute)):
             # and the body neither writes a global nor calls anything but package kernels / casts: checked loosely by having no subscript store
             if not any(isinstance(n, ast.Subscript) and isinstance(n.ctx, ast.Store) for n in ast.walk(fn)):
                 out.add(fn.name)
@@ -1151,7 +1153,8 @@ def _hoist_scalar_helper_calls(tree):
     function of scalars, so evaluating it first changes nothing; calls inside short-circuit operands, conditional expressions and
     `while` tests are left alone."""
     pure = _scalar_only_kernels(tree)
-    if not pure:
+    kernels = {fn.name for fn in tree.body if isinstance(fn, ast.FunctionDef) and _is_njit(fn)}
+    if not kernels:
         return 0
     n_h = 0
 
@@ -1177,6 +1180,20 @@ def _hoist_scalar_helper_calls(tree):
             for fld in ("body", "orelse", "finalbody"):
                 if hasattr(st, fld) and isinstance(getattr(st, fld), list) and not isinstance(st, (ast.FunctionDef, ast.ClassDef)):
                     setattr(st, fld, block(getattr(st, fld)))
+            if isinstance(st, ast.If):
+                # `if _helper(...):` / `if not _helper(...):` -- the call is the first thing the statement evaluates, whatever it takes
+                t_ = st.test
+                neg_ = isinstance(t_, ast.UnaryOp) and isinstance(t_.op, ast.Not)
+                c_ = t_.operand if neg_ else t_
+                if isinstance(c_, ast.Call) and isinstance(c_.func, ast.Name) and c_.func.id in kernels and c_.func.id not in pure \
+                        and not c_.keywords and not any(isinstance(a, ast.Starred) for a in c_.args):
+                    tmp = "hk__%s%d" % (c_.func.id.strip("_"), next(_counter))
+                    pre = ast.copy_location(ast.Assign(targets=[ast.Name(id=tmp, ctx=ast.Store())], value=c_), st)
+                    nm = ast.copy_location(ast.Name(id=tmp, ctx=ast.Load()), c_)
+                    st.test = ast.copy_location(ast.UnaryOp(op=ast.Not(), operand=nm), t_) if neg_ else nm
+                    ast.fix_missing_locations(pre)
+                    out.append(pre)
+                    n_h += 1
             for _ in range(8):
                 if isinstance(st, ast.For):
                     host, top = st.iter, None
@@ -1213,6 +1230,36 @@ def _hoist_scalar_helper_calls(tree):
         if isinstance(fn, ast.FunctionDef) and _is_njit(fn):
             fn.body = block(fn.body)
     return n_h
+
+
+def _attr_first(stmts, stores):
+    """`t = <expr>; self.A = t` (adjacent, t bound once)  ->  `self.A = <expr>; t = self.A`: the same object under both names, written
+    so that copy propagation can then read every later `t` as `self.A`.  Recursive over nested blocks."""
+    changed = 0
+    i = 0
+    while i < len(stmts):
+        s = stmts[i]
+        nxt = stmts[i + 1] if i + 1 < len(stmts) else None
+        if (isinstance(s, ast.Assign) and len(s.targets) == 1 and isinstance(s.targets[0], ast.Name) and stores.get(s.targets[0].id) == 1
+                and isinstance(nxt, ast.Assign) and len(nxt.targets) == 1 and isinstance(nxt.targets[0], ast.Attribute)
+                and isinstance(nxt.targets[0].value, ast.Name) and nxt.targets[0].value.id == "self"
+                and isinstance(nxt.value, ast.Name) and nxt.value.id == s.targets[0].id):
+            attr_t = nxt.targets[0]
+            a1 = ast.copy_location(ast.Assign(targets=[attr_t], value=s.value), s)
+            load = ast.copy_location(ast.Attribute(value=ast.Name(id="self", ctx=ast.Load()), attr=attr_t.attr, ctx=ast.Load()), nxt)
+            a2 = ast.copy_location(ast.Assign(targets=[s.targets[0]], value=load), nxt)
+            ast.fix_missing_locations(a1)
+            ast.fix_missing_locations(a2)
+            stmts[i], stmts[i + 1] = a1, a2
+            changed += 1
+            i += 2
+            continue
+        for fld in ("body", "orelse", "finalbody"):
+            blk = getattr(s, fld, None)
+            if isinstance(blk, list) and not isinstance(s, (ast.FunctionDef, ast.ClassDef)):
+                changed += _attr_first(blk, stores)
+        i += 1
+    return changed
 
 
 def _fuse_row_views(fn):
@@ -1303,6 +1350,11 @@ def normalize(tree):
             if all(_is_bare_return(r) for r in ast.walk(node) if isinstance(r, ast.Return)) and \
                     not any(isinstance(x, (ast.FunctionDef, ast.Lambda)) and x is not node for x in ast.walk(node)):
                 node.body = _eliminate_early_returns(node.body)
+            st_count = {}
+            for n_ in ast.walk(node):
+                if isinstance(n_, ast.Name) and isinstance(n_.ctx, (ast.Store, ast.Del)):
+                    st_count[n_.id] = st_count.get(n_.id, 0) + 1
+            _attr_first(node.body, st_count)
             for _ in range(3):
                 if not _propagate_copies(node):
                     break
